@@ -27,7 +27,8 @@ def vname(w, agg):
     return w.variants(agg.name)[agg.variant]
 
 
-def mk_struct(w, name, **kw):
+def mk_struct(w, name_, **kw):
+    name = name_
     fs = w.fields_of(name)
     assert fs is not None and set(fs) == set(kw), (name, fs, list(kw))
     return Agg(name, None, [Cell(kw[f]) for f in fs])
